@@ -164,6 +164,42 @@ def record_chain(chunk):
     return out
 
 
+def long_gap_events():
+    """an error value behind more than a hundred empty rows (columns) of a range: the aggregate still hands it on"""
+    evs = []
+    for n in (103, 150, 250):
+        for horiz in (False, True):
+            for src in ('=1/0', '=NA()'):
+                for f in ('SUM', 'MAX', 'COUNTA'):
+                    if f == 'COUNTA' and n + 40 > 255:
+                        continue          # (COUNTA over more than 256 cells: known finding F-C03-01)
+                    evs.append({'n': n, 'horiz': horiz, 'src': src, 'f': f})
+    return evs
+
+
+def record_long_gap(chunk):
+    L = xl.lib()
+    out = []
+    for e in chunk:
+        n = e['n']
+        far = (n, 1) if e['horiz'] else (1, n)
+        end = (n + 40, 1) if e['horiz'] else (1, n + 40)
+        src = S.bin_('/', S.num('1'), S.num('0')) if e['src'] == '=1/0' else S.call('NA', [])
+        ast = S.call(e['f'], [S.rng(1, 1, end[0], end[1])])
+        d = {'Sheet1!A1': 1, f'Sheet1!{S.col_letters(far[0])}{far[1]}': S.formula(src), 'Sheet1!B5' if not e['horiz'] else 'Sheet1!E5': S.formula(ast)}
+        probe = 'Sheet1!B5' if not e['horiz'] else 'Sheet1!E5'
+        try:
+            res = xl.to_abs(L.Evaluator(L.ModelCompiler().read_and_parse_dict(d)).evaluate(probe))
+        except BaseException as ex:      # noqa
+            if isinstance(ex, (KeyboardInterrupt, SystemExit)):
+                raise
+            res = {'t': 'exc', 'cls': type(ex).__name__}
+        out.append({'ast': ast, 'sheet': 'Sheet1', 'names': [], 'res': res, 'addr': probe, 'text': S.formula(ast),
+                    'cells': [{'sheet': 'Sheet1', 'col': 1, 'row': 1, 'v': {'t': 'num', 'n': 1, 'd': 1}},
+                              {'sheet': 'Sheet1', 'col': far[0], 'row': far[1], 'ast': src}]})
+    return out
+
+
 CODES = ['#NULL!', '#DIV/0!', '#VALUE!', '#REF!', '#NAME?', '#NUM!', '#N/A']
 
 
@@ -272,6 +308,11 @@ def run(run):
     res = trace.validate(run, recorded, module='Trace_Formula', features=lambda e, x, v: {'verdict': v, 'text': ''.join(map(chr, e['text']))})
     if any(v.startswith('generator') for _, v, _ in res):
         raise xl.MachineryError('chain generator disagrees with the specification rendering')
+    from harness import evalrec
+    lg = [e for part in pool.pmap(record_long_gap, long_gap_events(), nchunks=8) for e in part]
+    lv = evalrec.validate(run, lg, name='longgap', kind='long-gap')
+    run.evaluations += len(lg)
+    run.notes['long_gap_events'] = dict(lv)
     events = driver(run.seed, 3000 if run.tier == 'quick' else 40000)
     recorded = [e for part in pool.pmap(record, events) for e in part]
     run.evaluations += len(recorded)
